@@ -60,11 +60,25 @@ PROPS['C16'] = {
     'design_ref': 'DESIGN.md section 5 C16',
 }
 
+PROPS['C20'] = {
+    'units': ['cfg', 'cfg_all'],
+    'title': 'CLI options override typeshare.toml',
+    'technique': 'Verus postcondition on override_configuration (extracted verbatim, both cargo feature sets): precedence clause per dual setting '
+                 '+ frame clause generated for every other leaf field of Config',
+    'level_text': 'For all option/config values (strings, maps and vectors of any content): every setting that exists both on the command line and in '
+                  'typeshare.toml takes the command-line value when given else the loaded value; every file-only setting (type mappings, decorators, '
+                  'constraints, acronyms, no_pointer_slice) reaches generation unchanged; target_os comes from the command line only; Err exactly for '
+                  'Go without a package. Proved for feature sets {} and {go, python}.',
+    'level_note': 'Kernel: override_configuration only. TOML/serde round trip, -g never overwriting, config discovery and the wiring of Config into the '
+                  'back ends are not under contract (reported as undecided parts). Assumed: four outlined expressions, anyhow::ensure! expansion.',
+    'design_ref': 'DESIGN.md section 5 C20',
+}
+
 NOT_APPLICABLE = {k: NA_TEXT for k in ['C01', 'C02', 'C04', 'C05', 'C08', 'C09', 'C10', 'C12', 'C14', 'C15', 'C19']}
 NOT_APPLICABLE.update({k: 'unit not built yet in this round (see DESIGN.md build order)' for k in
-                       ['C03', 'C06', 'C07', 'C13', 'C17', 'C20']})
+                       ['C03', 'C06', 'C07', 'C13', 'C17']})
 
-ALL_UNITS = ['topo', 'rename']
+ALL_UNITS = ['topo', 'rename', 'cfg', 'cfg_all']
 ALL_KANI = ['kint']
 
 
